@@ -21,7 +21,7 @@ try:
         r = subprocess.run('/venv/bin/python -m pytest -q -p no:cacheprovider -x 2>&1 | tail -1', shell=True, cwd=wt, capture_output=True, text=True)
         print('%s suite: %s' % (m['id'], r.stdout.strip()))
     for pr in props:
-        r = subprocess.run('PV_REPO=%s /verif/check %s --no-evidence 2>&1' % (wt, pr), shell=True, capture_output=True, text=True)
+        r = subprocess.run('PV_REPO=%s timeout 600 /verif/check %s --no-evidence 2>&1' % (wt, pr), shell=True, capture_output=True, text=True)
         lines = [l for l in r.stdout.splitlines() if l.startswith('violation:')]
         print('%s vs %s: exit %d  %s' % (m['id'], pr, r.returncode, (lines[0][:200] if lines else r.stdout.splitlines()[-1][:160] if r.stdout else '')))
 finally:
